@@ -21,7 +21,7 @@
 (* interleaving of these actions.                                          *)
 (*                                                                         *)
 (* Deviations (DESIGN.md 2.2): what the pinned code does beyond the        *)
-(* intended design; with Deviations = {} every invariant holds.            *)
+(* intended design; with dev = {} every invariant holds.            *)
 (*   "RowHitBypassesDelayQueue"  a row hit enters the pipeline although    *)
 (*        earlier requests of the same bank still wait in the delay queue  *)
 (*   "PassesBlockedHit"          a row miss of the same bank is dispatched *)
@@ -31,18 +31,22 @@
 (***************************************************************************)
 EXTENDS MemOps
 
-CONSTANTS NB,         \* number of banks
-          IL,         \* interleave size in bytes
-          RowSz,      \* row-buffer size in bank-local bytes
-          Width,      \* lanes of a bank pipeline
-          Track,      \* BOOLEAN: row-buffer tracking on (rowBufferSizeLog2 > 0 /\ rowMissDelay > 0)
-          Deviations, \* subset of the three names above
+CONSTANTS Config,     \* configuration of the model-checked instance (MC only; a trace brings its own)
           PortCap,    \* capacity of Top.incoming and Top.outgoing
           PostCap,    \* capacity of a post-pipeline buffer
           Payloads,   \* requests the environment may issue (MC only)
           MaxReq      \* bound on the number of requests (MC only)
 
+\* The configuration is part of the state (it never changes during a run), so that one TLC run can
+\* validate recorded runs of many configurations:
+\*   cfg = [nb     |-> number of banks,
+\*          il     |-> interleave size in bytes,
+\*          rowsz  |-> row-buffer size in bank-local bytes,
+\*          width  |-> lanes of a bank pipeline,
+\*          track  |-> BOOLEAN, row-buffer tracking on (rowBufferSizeLog2 > 0 /\ rowMissDelay > 0),
+\*          dev    |-> subset of the three deviation names above]
 VARIABLES
+  cfg,
   topIn,    \* Seq of ids       Top.incoming
   pending,  \* Seq of ids       middleware.pendingReqs
   delayQ,   \* [bank -> Seq of ids]            bank.delayQueue
@@ -60,20 +64,21 @@ VARIABLES
   wasHit    \* pending ids that were a row hit at some moment while pending (dispatchPending may have
             \* found them blocked by a full pipeline and kept them)
 
-vars == <<topIn, pending, delayQ, pipe, post, lastRow, done, rdata, storage, topOut, reqs, loc, rsps, wasHit>>
+vars == <<cfg, topIn, pending, delayQ, pipe, post, lastRow, done, rdata, storage, topOut, reqs, loc, rsps, wasHit>>
 
-Banks == 0..(NB - 1)
+Banks == 0..(cfg.nb - 1)
 
 \* interleavedBankSelector.Select and the bank-local row computation of dispatchPending
-BankOf(a) == (a \div IL) % NB
-LocalOf(a) == ((a \div IL) \div NB) * IL + (a % IL)
-RowOf(a) == LocalOf(a) \div RowSz
+BankOf(a) == (a \div cfg.il) % cfg.nb
+LocalOf(a) == ((a \div cfg.il) \div cfg.nb) * cfg.il + (a % cfg.il)
+RowOf(a) == LocalOf(a) \div cfg.rowsz
 \* assumption on the environment: a request does not cross an interleave block
-InBlock(p, ba) == (ba % IL) + p.n <= IL
+InBlock(p, ba) == (ba % cfg.il) + p.n <= cfg.il
 
 RemoveAt(s, i) == [j \in 1..(Len(s) - 1) |-> IF j < i THEN s[j] ELSE s[j + 1]]
 
 Init ==
+  /\ cfg = Config
   /\ topIn = <<>> /\ pending = <<>>
   /\ delayQ = [b \in Banks |-> <<>>] /\ pipe = [b \in Banks |-> <<>>] /\ post = [b \in Banks |-> <<>>]
   /\ lastRow = [b \in Banks |-> -1]
@@ -87,20 +92,20 @@ EnvReq(p, ba) ==
   /\ reqs' = Append(reqs, p)
   /\ loc' = Append(loc, [b |-> BankOf(ba), r |-> RowOf(ba)])
   /\ topIn' = Append(topIn, Len(reqs) + 1)
-  /\ UNCHANGED <<pending, delayQ, pipe, post, lastRow, done, rdata, storage, topOut, rsps, wasHit>>
+  /\ UNCHANGED <<pending, delayQ, pipe, post, lastRow, done, rdata, storage, topOut, rsps, wasHit, cfg>>
 
 EnvTake ==
   /\ topOut # <<>> /\ topOut' = Tail(topOut)
-  /\ UNCHANGED <<topIn, pending, delayQ, pipe, post, lastRow, done, rdata, storage, reqs, loc, rsps, wasHit>>
+  /\ UNCHANGED <<topIn, pending, delayQ, pipe, post, lastRow, done, rdata, storage, reqs, loc, rsps, wasHit, cfg>>
 
 \* ---------------------------------------------------------------- component
-Hit(id) == Track /\ lastRow[loc[id].b] = loc[id].r
+Hit(id) == cfg.track /\ lastRow[loc[id].b] = loc[id].r
 
 Drain ==
   /\ topIn # <<>>
   /\ pending' = Append(pending, Head(topIn)) /\ topIn' = Tail(topIn)
   /\ wasHit' = IF Hit(Head(topIn)) THEN wasHit \cup {Head(topIn)} ELSE wasHit
-  /\ UNCHANGED <<delayQ, pipe, post, lastRow, done, rdata, storage, topOut, reqs, loc, rsps>>
+  /\ UNCHANGED <<delayQ, pipe, post, lastRow, done, rdata, storage, topOut, reqs, loc, rsps, cfg>>
 
 \* May pending[i] be dispatched although pending[j] (j < i) is still there?
 \* Design: only if they go to different banks.  As implemented, a blocked
@@ -108,8 +113,8 @@ Drain ==
 \* to the delay queue.
 MayPass(i, j) ==
   \/ loc[pending[j]].b # loc[pending[i]].b
-  \/ /\ "PassesBlockedHit" \in Deviations
-     /\ Track /\ pending[j] \in wasHit /\ ~Hit(pending[i])
+  \/ /\ "PassesBlockedHit" \in cfg.dev
+     /\ cfg.track /\ pending[j] \in wasHit /\ ~Hit(pending[i])
 
 Dispatch(i, lane) ==
   /\ i \in 1..Len(pending)
@@ -117,37 +122,37 @@ Dispatch(i, lane) ==
   /\ LET id == pending[i]
          b  == loc[id].b IN
      /\ \/ \* straight into the pipeline: no row tracking, or a row hit with nothing older waiting
-           /\ \/ ~Track
-              \/ Hit(id) /\ (delayQ[b] = <<>> \/ "RowHitBypassesDelayQueue" \in Deviations)
+           /\ \/ ~cfg.track
+              \/ Hit(id) /\ (delayQ[b] = <<>> \/ "RowHitBypassesDelayQueue" \in cfg.dev)
            /\ pipe' = [pipe EXCEPT ![b] = Append(@, [id |-> id, lane |-> lane])]
            /\ UNCHANGED delayQ
         \/ \* into the delay queue: a row miss, or a row hit behind queued requests
-           /\ Track /\ (~Hit(id) \/ delayQ[b] # <<>>)
+           /\ cfg.track /\ (~Hit(id) \/ delayQ[b] # <<>>)
            /\ lane = 1
            /\ delayQ' = [delayQ EXCEPT ![b] = Append(@, id)]
            /\ UNCHANGED pipe
-     /\ lastRow' = IF Track THEN [lastRow EXCEPT ![b] = loc[id].r] ELSE lastRow
+     /\ lastRow' = IF cfg.track THEN [lastRow EXCEPT ![b] = loc[id].r] ELSE lastRow
   /\ pending' = RemoveAt(pending, i)
   /\ wasHit' = (wasHit \ {pending[i]}) \cup
-               {pending[j] : j \in {j \in 1..Len(pending) : j # i /\ Track
+               {pending[j] : j \in {j \in 1..Len(pending) : j # i /\ cfg.track
                                                            /\ loc[pending[j]].b = loc[pending[i]].b
                                                            /\ loc[pending[j]].r = loc[pending[i]].r}}
-  /\ UNCHANGED <<topIn, post, done, rdata, storage, topOut, reqs, loc, rsps>>
+  /\ UNCHANGED <<topIn, post, done, rdata, storage, topOut, reqs, loc, rsps, cfg>>
 
 Expire(b, lane) ==
   /\ delayQ[b] # <<>>
   /\ pipe' = [pipe EXCEPT ![b] = Append(@, [id |-> Head(delayQ[b]), lane |-> lane])]
   /\ delayQ' = [delayQ EXCEPT ![b] = Tail(@)]
-  /\ UNCHANGED <<topIn, pending, post, lastRow, done, rdata, storage, topOut, reqs, loc, rsps, wasHit>>
+  /\ UNCHANGED <<topIn, pending, post, lastRow, done, rdata, storage, topOut, reqs, loc, rsps, wasHit, cfg>>
 
 Exit(b, k) ==
   /\ k \in 1..Len(pipe[b])
   /\ \A j \in 1..(k - 1) : pipe[b][j].lane # pipe[b][k].lane     \* a lane is a FIFO
-  /\ k = 1 \/ "LaneOvertake" \in Deviations
+  /\ k = 1 \/ "LaneOvertake" \in cfg.dev
   /\ Len(post[b]) < PostCap
   /\ post' = [post EXCEPT ![b] = Append(@, pipe[b][k].id)]
   /\ pipe' = [pipe EXCEPT ![b] = RemoveAt(@, k)]
-  /\ UNCHANGED <<topIn, pending, delayQ, lastRow, done, rdata, storage, topOut, reqs, loc, rsps, wasHit>>
+  /\ UNCHANGED <<topIn, pending, delayQ, lastRow, done, rdata, storage, topOut, reqs, loc, rsps, wasHit, cfg>>
 
 Commit(b) ==
   /\ post[b] # <<>>
@@ -158,7 +163,7 @@ Commit(b) ==
      /\ IF p.k = "r"
         THEN rdata' = rdata @@ (id :> ReadOf(storage, p)) /\ UNCHANGED storage
         ELSE storage' = ApplyWrite(storage, p) /\ UNCHANGED rdata
-  /\ UNCHANGED <<topIn, pending, delayQ, pipe, post, lastRow, topOut, reqs, loc, rsps, wasHit>>
+  /\ UNCHANGED <<topIn, pending, delayQ, pipe, post, lastRow, topOut, reqs, loc, rsps, wasHit, cfg>>
 
 SendRsp(b) ==
   /\ post[b] # <<>> /\ Head(post[b]) \in done
@@ -168,9 +173,9 @@ SendRsp(b) ==
      /\ topOut' = Append(topOut, r)
      /\ rsps' = Append(rsps, r)
   /\ post' = [post EXCEPT ![b] = Tail(@)]
-  /\ UNCHANGED <<topIn, pending, delayQ, pipe, lastRow, done, rdata, storage, reqs, loc, wasHit>>
+  /\ UNCHANGED <<topIn, pending, delayQ, pipe, lastRow, done, rdata, storage, reqs, loc, wasHit, cfg>>
 
-Lanes == 1..Width
+Lanes == 1..cfg.width
 
 CompNext ==
   \/ Drain
@@ -188,7 +193,8 @@ Next == CompNext \/ EnvNext
 Fairness ==
   /\ WF_vars(Drain) /\ WF_vars(EnvTake)
   /\ WF_vars(\E i \in 1..Len(pending), lane \in Lanes : Dispatch(i, lane))
-  /\ \A b \in Banks : /\ WF_vars(\E lane \in Lanes : Expire(b, lane))
+  /\ \A b \in 0..(Config.nb - 1) :
+                      /\ WF_vars(\E lane \in Lanes : Expire(b, lane))
                       /\ WF_vars(\E k \in 1..Len(pipe[b]) : Exit(b, k))
                       /\ WF_vars(Commit(b)) /\ WF_vars(SendRsp(b))
 
